@@ -22,10 +22,17 @@ Spec == Init /\ [][Next]_vars /\ WF_vars(Next)
 Alias == [d |-> d, s |-> s, obs |-> obs, open |-> open, waitc |-> waitc, age |-> age,
           iv |-> CHOOSE iv \in Inputs(C) : Step(iv)]
 
-(* liveness: fair slaves, finite bus cycles  =>  every request is terminated *)
-Fair == /\ \A i \in 1..MAXN : []<>(obs.idle[i])
-        /\ \A j \in 1..MAXN : []<>(obs.slaveok[j])
-Served == Fair => \A i \in 1..MAXN : []<>(obs.notwaiting[i])
+(* liveness.  Premise: no master HOGS the bus, i.e. every master is infinitely often outside a bus cycle, or in a   *)
+(* bus cycle that has not been served yet with a strobed request the interconnect is obliged to terminate (mapped, *)
+(* or any if a time-out is configured).  A master that keeps a served cycle, keeps cyc without stb, or keeps an     *)
+(* unmapped request without time-out for ever is a hog (Wishbone lets it).                                          *)
+(* (Until session 3 the premise was "every master is idle infinitely often", which a waiting master itself         *)
+(* falsifies: the clauses could not fail.  Canary: harness/families/wbic.py canary="stuck_grant".)                  *)
+Obliged(k) == open[k] # <<>> /\ (open[k][1] <= C.m \/ C.timeout > 0)
+NoHog == \A k \in 1..MAXN : []<>(incyc[k] = 0 \/ (served[k] = 0 /\ Obliged(k)))
+FairSlaves == \A j \in 1..MAXN : []<>(obs.slaveok[j])
+(* C06: fair slaves, no hog  =>  every request is terminated *)
+Served == (NoHog /\ FairSlaves) => \A i \in 1..MAXN : []<>(obs.notwaiting[i])
 (* C11: even with silent slaves every request is terminated, and the bus keeps working *)
-Recovers == (\A i \in 1..MAXN : []<>(obs.idle[i])) => \A i \in 1..MAXN : []<>(obs.notwaiting[i])
+Recovers == NoHog => \A i \in 1..MAXN : []<>(obs.notwaiting[i])
 =============================================================================
